@@ -409,6 +409,7 @@ type checkOpts struct {
 
 func cmdCheck(o checkOpts) int {
 	t0 := time.Now()
+	curTier = o.tier
 	specs := specsFor(o.prop, o.tier, o.filter)
 	if len(specs) == 0 {
 		fmt.Fprintf(os.Stderr, "no harness registered for %s tier %s\n", o.prop, o.tier)
@@ -807,7 +808,7 @@ func writeReplayFile(spec HarnessSpec, v Violation, output string) string {
 	os.MkdirAll(dir, 0o755)
 	name := fmt.Sprintf("%s_%s_%x.json", spec.Prop, spec.Func, hashString(v.sig()))
 	path := filepath.Join(dir, name)
-	b, _ := json.MarshalIndent(map[string]any{"property": spec.Prop, "harness": spec.Func, "tag": spec.Tag, "pkg": spec.Pkg, "violation": v, "replay_output": output}, "", " ")
+	b, _ := json.MarshalIndent(map[string]any{"property": spec.Prop, "harness": spec.Func, "tag": spec.Tag, "pkg": spec.Pkg, "violation": v, "params": nativeParams(spec), "replay_output": output}, "", " ")
 	os.WriteFile(path, b, 0o644)
 	return path
 }
